@@ -171,6 +171,28 @@ func DotMixed() (string, error) {
 }
 '''
 
+F13 = '''//go:build cff
+
+package probe
+
+import (
+	"context"
+
+	"go.uber.org/cff"
+)
+
+// GenNamed lives in a hand-written source file whose name ends in _gen.go.
+func GenNamed() (string, error) {
+	var out T1
+	ferr := cff.Flow(context.Background(),
+		cff.Params(T0{S: "x"}),
+		cff.Results(&out),
+		cff.Task(func(a T0) T1 { return T1{S: "named:" + a.S} }),
+	)
+	return out.S, ferr
+}
+'''
+
 MAIN = '''package main
 
 import (
@@ -198,6 +220,7 @@ PROBES = {
     "F10base": dict(src=F10, fn="LocalType", want='RESULT "local:x" <nil>'),
     # either outcome satisfies C13: processed correctly, or refused with a positioned diagnostic
     "F12": dict(src=F12, fn="DotImport", want='RESULT "dot:x" <nil>', reject_ok=True),
+    "F13": dict(src=F13, fn="GenNamed", want='RESULT "named:x" <nil>', filename="id_gen.go"),
     "F12b": dict(src=F12B, fn="DotMixed", want='RESULT "dot:q:x" <nil>', reject_ok=True),
 }
 
@@ -209,7 +232,7 @@ def run_probe(name):
     d = os.path.join(mod, "probe")
     os.makedirs(d)
     open(os.path.join(d, "types.go"), "w").write(TYPES)
-    open(os.path.join(d, "probe.go"), "w").write(pr["src"])
+    open(os.path.join(d, pr.get("filename", "probe.go")), "w").write(pr["src"])
     os.makedirs(os.path.join(mod, "cmd"))
     open(os.path.join(mod, "cmd", "main.go"), "w").write(MAIN % pr["fn"])
     rc, out = common.run_cff(mod, "./probe", extra=pr.get("cff_args", []))
